@@ -253,6 +253,7 @@ class HostGen:
                 cands.append(("loopidx", k))
             if lp["kind"] in ("foreach", "enumerate"):
                 cands.append(("elt", k))
+        cands += self.loop_indexed_elements()
         if allow_lit and (not cands or ch.flag(1, 3, "oplit")):
             return ("lit", ch.draw(3, "litv"))
         if not cands:
@@ -266,6 +267,7 @@ class HostGen:
                 cands.append(("elt", k))
             if lp["kind"] == "loop" and lp["form"] == "cb":
                 cands.append(("loopidx", k))
+        cands += self.loop_indexed_elements()
         if not cands:
             return None
         return cands[self.ch.draw(len(cands), "fopnd")]
@@ -339,7 +341,21 @@ class HostGen:
         self.note_written(t)
         return out
 
+    def loop_indexed_elements(self) -> List[tuple]:
+        """elements of fully-defined arrays addressed by an enclosing counted loop's index"""
+        out = []
+        for k, lp in enumerate(self.loops):
+            if lp["kind"] == "loop":
+                for a in sorted(self.arrays):
+                    d = self.arrays[a]
+                    if d["full"] and d["len"] >= lp["n"]:
+                        out.append(("arrfut", a, ("loopidx", k)))
+        return out
+
     def body(self) -> List[tuple]:
+        if self.ok("empty-body") and self.ch.flag(1, 12, "emptybody"):
+            self.kinds.add("empty-body")
+            return []
         self.defined.append(set())
         self.scope_q.append([])
         n = 1 + self.ch.draw(3, "nbody")
@@ -487,6 +503,7 @@ class HostGen:
             for k, lp in enumerate(self.loops):
                 if lp["kind"] in ("foreach", "enumerate"):
                     cands.append(("elt", k))
+            cands += self.loop_indexed_elements()
             if "rewrite-after-read" in self.avoid:
                 # recorded finding: a Future the host has already read keeps its cached value
                 cands = [r for r in cands if not (r[0] == "fut" and r[1] in self.flushed_futs)]
